@@ -315,6 +315,34 @@ def run(tier, seed, replay=None):
         except (Unmodelled, TypeError, AssertionError):
             pass
         res.sample({"root": repr(root)[:120], "document": J if len(text) < 600 else text[:300]}, limit=3)
+    # ---- one element OBJECT used at several positions of a tree (nothing cyclic about it): the document is the one the same tree
+    #      built from distinct, equal objects gives -------------------------------------------------------------------------------------
+    if not replay:
+        from statham.schema.elements import String, Integer, Array, Element, Object, AnyOf
+        from statham.schema.property import Property
+
+        def shared_trees(share):
+            mk = (lambda f, memo={}: memo.setdefault(f, f())) if share else (lambda f: f())     # one object per kind, or a new one each time
+            name = lambda: String(minLength=1)           # noqa
+            num = lambda: Integer(minimum=0)             # noqa
+            person = Object.inline("Person", properties={"first": Property(mk(name), required=True), "last": Property(mk(name), required=True),
+                                                         "age": Property(mk(num))})
+            return [Array([mk(name), mk(name)]),
+                    Element(properties={"a": Property(mk(name)), "b": Property(mk(name))}, additionalProperties=mk(name)),
+                    AnyOf(mk(num), Array(mk(num)), Element(items=[mk(num), mk(num)], additionalItems=mk(num))),
+                    Array(person), Element(properties={"p": Property(person), "q": Property(person), "n": Property(mk(name))})]
+        for i, (shared, distinct) in enumerate(zip(shared_trees(True), shared_trees(False))):
+            stats["shared_instance_trees"] = stats.get("shared_instance_trees", 0) + 1
+            res.count("shared-instance:%d" % i, nontrivial=True)
+            try:
+                Js, Jd = serialize_json(shared), serialize_json(distinct)
+            except BaseException as exc:  # noqa
+                res.violation({"property": "C03", "kind": "oracle", "tree": repr(shared)[:300],
+                               "what": "serialize_json raised %s on an acyclic tree in which one element object is used at several positions: %s" % (type(exc).__name__, str(exc)[:120])})
+                continue
+            if json.dumps(Js, sort_keys=True) != json.dumps(Jd, sort_keys=True):
+                res.violation({"property": "C03", "kind": "oracle", "tree": repr(shared)[:300], "document": Js,
+                               "what": "a tree in which one element object is used at several positions serializes differently from the same tree built of distinct equal objects"})
     # ---- Draft-6 metaschema validity (jsonschema, tooling interpreter) ------------------------------------------------
     if all_docs:
         d = common.ensure_work()
